@@ -20,29 +20,36 @@ Proof.
   rewrite (str_eqb_sym k n). destruct (str_eqb n k); [reflexivity|exact IH].
 Qed.
 
-Theorem model_values_denote c den :
-  request_ok (c_funcs c) (c_inputs c) = true ->
-  denote_run sym_body (c_funcs c) (c_inputs c) (c_internal c) = Ok den ->
-  exists st, map_run sym_body (c_funcs c) (c_inputs c) (c_internal c) = Ok st
-    /\ (forall n, option_map (fun x => snd (fst x)) (find (fun x => str_eqb (fst (fst x)) n) (r_out st))
-                  = dict_get (d_out den) n)
+Theorem model_values_denote q den :
+  request_ok (q_funcs q) (q_inputs q) = true ->
+  denote_run sym_body (q_funcs q) (q_inputs q) (q_internal q) = Ok den ->
+  exists st, map_run sym_body (q_funcs q) (q_inputs q) (q_internal q) = Ok st
+    /\ (forall n, outv_of (r_out st) n = dict_get (d_out den) n)
     /\ forallb (fun x => val_eqb (snd (fst x)) (snd x)) (r_out st) = true.
 Proof.
   intros Hreq Hd.
-  destruct (map_run_denotes sym_body sym_body_arity (c_internal c) _ _ _ Hreq Hd) as [st [Hr [H1 H2]]].
+  destruct (map_run_denotes sym_body sym_body_arity (q_internal q) _ _ _ Hreq Hd) as [st [Hr [H1 H2]]].
   exists st. split; [assumption|]. split.
-  - intros n. rewrite find_out_dict_get. now rewrite H1.
+  - intros n. unfold outv_of. rewrite find_out_dict_get. now rewrite H1.
   - apply forallb_forall. intros [[k a] b] Hin. cbn [fst snd]. unfold val_eqb.
     rewrite <- H1 in H2. pose proof (proj1 map_ext_in_iff H2 _ Hin) as E. cbn [fst snd] in E.
     injection E as ->. apply sx_eqb_refl19.
+Qed.
+
+Lemma valid_req_denote q : valid_req q = true ->
+  request_ok (q_funcs q) (q_inputs q) = true
+  /\ exists den, denote_run sym_body (q_funcs q) (q_inputs q) (q_internal q) = Ok den.
+Proof.
+  unfold valid_req. intros H. do 7 (apply andb_true_iff in H as [H ?]).
+  split; [assumption|].
+  destruct (denote_run sym_body (q_funcs q) (q_inputs q) (q_internal q)) as [den|e]; [now exists den|discriminate].
 Qed.
 
 (* the executable statement demands a dataset for every valid request: an exception observed from either
    constructor (or from Pipeline.map) is always judged a violation *)
 Theorem spec_rejects_errors c e : valid c = true -> spec_ok c (SErr e) = false.
 Proof.
-  intros Hv. unfold spec_ok. rewrite Hv. cbn [negb].
-  unfold valid in Hv. repeat (apply andb_true_iff in Hv as [Hv ?]).
-  destruct (denote_run sym_body (c_funcs c) (c_inputs c) (c_internal c)) as [den|e']; [|discriminate].
-  reflexivity.
+  unfold valid, spec_ok. destruct (resolve c) as [q|e']; [|discriminate]. intros Hv.
+  unfold spec_req. rewrite Hv. cbn [negb].
+  destruct (valid_req_denote q Hv) as [_ [den ->]]. reflexivity.
 Qed.
